@@ -119,6 +119,14 @@ func init() {
 				return "", err
 			}
 		}
+		// ---- createFn of the namespace / metric dictionaries (limits first, then the counter) and what createValue
+		// does when createFn fails
+		for _, pr := range [][2]string{{"metaGenNSIDCalls", "genNSID"}, {"metaGenMetricIDFnCalls", "genMetricID"}} {
+			if err := emit(pr[0], FindFunc(mmf, "metricMetaDatabase", pr[1]), "metricMetaDatabase."+pr[1]); err != nil {
+				return "", err
+			}
+		}
+		sb.WriteString("\ndef kvCreateValueErrBranchCalls : List (List String) := [" + strings.Join(errBranchCalls(FindFunc(kvf, "indexKVStore", "createValue")), ", ") + "]\n")
 		// ---- control flow of the two Flush methods: is every step's error returned at once ("a failed step
 		// aborts the round")? One pair per call, in evaluation order: (call, guarded by `if err := call(); err != nil { return err }`)
 		sb.WriteString("\ndef indexFlushStepGuards : List (String × Bool) := " + leanGuardList(stepGuards(FindFunc(mif, "metricIndexDatabase", "Flush"))) + "\n")
